@@ -19,6 +19,10 @@ def shape_args(i, H):
         ((H.HTMLDependency("d", "1.0"), {"style": "a:b;"}), {"style": HTML("c:d;")}),
         (({"a_b": False, "a-b": "z"}, True), {"aria_label": "<&>\"'"}),
         ((gamma.ReprObj("<u>r</u>"), gamma.Tfy(lambda: "e")), {"_": "u"} if False else {"lang": "en"}),
+        # repeated equal children and attribute dicts: every occurrence is passed through
+        (("x", "y", "x", span("k"), span("k"), {"class": "a"}, {"class": "a"}, H.HTMLDependency("d", "1.0"), H.HTMLDependency("d", "1.0")), {}),
+        # block-level tags as children do not change the function's own whitespace default
+        ((H.tags.p("para"), H.tags.div("d", H.tags.ul(H.tags.li("i")))), {"id": "w"}),
     ]
     return shapes[(i - 1) % len(shapes)]
 
